@@ -271,3 +271,35 @@ func Offset(key []byte, counter uint64, algo int) int {
 	s := HMAC(algo, key, c[:])
 	return int(s[len(s)-1] & 0x0f)
 }
+
+// B32DecodeLoose decodes a string of base32 alphabet characters (upper-case, no
+// padding), ignoring the unused trailing bits. ok=false if a character is outside
+// the alphabet or the length is impossible (1, 3, 6 mod 8).
+func B32DecodeLoose(s string) ([]byte, bool) {
+	switch len(s) % 8 {
+	case 1, 3, 6:
+		return nil, false
+	}
+	var out []byte
+	var acc uint32
+	bits := 0
+	for i := 0; i < len(s); i++ {
+		c := s[i]
+		var v int
+		switch {
+		case c >= 'A' && c <= 'Z':
+			v = int(c - 'A')
+		case c >= '2' && c <= '7':
+			v = int(c-'2') + 26
+		default:
+			return nil, false
+		}
+		acc = acc<<5 | uint32(v)
+		bits += 5
+		if bits >= 8 {
+			out = append(out, byte(acc>>(uint(bits)-8)))
+			bits -= 8
+		}
+	}
+	return out, true
+}
